@@ -562,7 +562,7 @@ func c10Scenario(w *vfWorld, r *vfkit.R, idx int) {
 
 func TestVfC10(t *testing.T) {
 	r := vfkit.New("C10")
-	defer r.Flush(true)
+	defer r.Finish()
 	e := vfBoot(vfConfig{Push: true})
 	vfInstallRecorder(e)
 	rng := r.Rand(1)
